@@ -1040,6 +1040,9 @@ func (s *State) evalIfExpression(ie *ast.IfExpression) object.Object {
 		}
 		return s.evalInternal(ie.Alternative)
 	default:
+		if condition.Type() == object.ERROR {
+			return condition // as it is (like a for condition): wrapping it at every level of a recursion made it grow quadratically.
+		}
 		return s.NewError("condition is not a boolean: " + condition.Inspect())
 	}
 }
